@@ -92,6 +92,7 @@ def call_spec(funcs=tuple(FUNCS), coefs=None, max_deg=5, n_max=6, max_terms=7, s
                 "remap": gen.pick((False, 3), (True, 1)) if kind in gen.LABELLED_KINDS else st.just(False),
                 "reuse": gen.pick((False, 4), (True, 1)) if kind in gen.LABELLED_KINDS else st.just(False),
                 "stale_first": st.booleans(),
+                "derived": gen.pick((None, 5), ("copy", 1), ("ctor", 1), ("add0", 1), ("mul1", 1), ("neg2", 1)),
                 "seed": seeds,
                 # how an explicit schedule is handed over: the documented "iterable of floats" as a list of floats, with
                 # integral temperatures as python ints, as a tuple, a numpy array, a generator or Fractions
@@ -166,6 +167,10 @@ def prepare(qv, spec):
             k = tuple(k)
             model[k] += 1
             model[k] -= 1
+    if spec.get("derived") and kind != "dict":
+        # the model handed to the annealer is the result of an earlier library call on the model built above
+        model = {"copy": lambda m: m.copy(), "ctor": lambda m: type(m)(m), "add0": lambda m: m + 0,
+                 "mul1": lambda m: m * 1, "neg2": lambda m: -(-m)}[spec["derived"]](model)
     if spec.get("remap") and kind in gen.LABELLED_KINDS:
         mp = model.mapping
         n_ = len(mp)
